@@ -496,6 +496,12 @@ def run_case(I, check, item):
 def run_shard(ctx):
     if ctx.get('engine') in ('w9', 'w10'):
         return run_wrapped(ctx)
+    if ctx.get('engine') == 'cls':
+        from . import cls
+        return cls.run_shard(ctx)
+    if ctx.get('engine') == 'meta':
+        from . import meta
+        return meta.run_shard(ctx)
     from .interp import Interp, show
     check, tier, seed, shard, nshards = ctx['check'], ctx['tier'], ctx['seed'], ctx['shard'], ctx['nshards']
     I = Interp(seed=seed * 7919 + shard, nprobes=10 if tier == 'quick' else 16)
@@ -565,6 +571,12 @@ def replay(case, check, seed=0):
     """re-execute one recorded case; returns list of (props, event json) violations for `check`"""
     if case.get('kind') in ('w9', 'w10'):
         return replay_wrapped(case, check, seed)
+    if case.get('kind') == 'cls':
+        from . import cls
+        return cls.replay(case, check, seed)
+    if case.get('kind') in ('int', 'int-invalid', 'dec', 'dec-invalid', 'numeral', 'numeral-invalid', 'word', 'ipv4', 'ipv6', 'date', 'date-invalid'):
+        from . import meta
+        return [v for v in meta.replay(case, check, seed) if meta.is_c03(v['symptom'])]
     from .interp import Interp
     I = Interp(seed=seed, nprobes=16)
     item = {'prog': case['prog'], 'form': case.get('form', 'c'), 'hole': case.get('hole'), 'prune': case.get('prune', False)}
@@ -585,6 +597,11 @@ def replay(case, check, seed=0):
 
 def candidates(case):
     """smaller variants of a recorded DSL case (for the shrinker)"""
+    if case.get('kind') == 'cls':
+        from . import cls
+        return cls.candidates(case)
+    if case.get('kind') != 'dsl':
+        return []
     from .shrink import dsl_candidates
     out = []
     for p in dsl_candidates(case['prog']):
@@ -613,6 +630,11 @@ METACLASS = {'$': 'dollar', '^': 'caret', '(': 'paren', ')': 'paren', '[': 'brac
 
 def features(case, violation):
     """mechanism features of a (shrunk) witness: never a hash, a seed or the literal text itself"""
+    if case.get('kind') == 'cls':
+        from . import cls
+        return cls.features(case, violation)
+    if case.get('kind') != 'dsl':
+        return ['kind:' + str(case.get('kind'))]
     tags = set()
     ev = violation.get('event', {})
     tags.add('op:' + str(ev.get('op')))
@@ -658,6 +680,16 @@ def plan(check, tier, seed, tp):
     if check in WRAPPED_FOR:
         jobs.append(('w9', {'engine': 'w9', 'shard': 0, 'nshards': 1}, 0))
         jobs.append(('w10', {'engine': 'w10', 'shard': 0, 'nshards': 1}, 0))
+    if check == 'C03':
+        # "class algebra, meta patterns ... for every interpreter hash seed": the class and meta engines
+        # run their workloads under the C03 oracle (crash / uncompilable / export)
+        hss = [0, 1] if tier == 'quick' else list(range(8))
+        for h in hss:
+            for p in range(2):
+                jobs.append(('cls.p%d.h%d' % (p, h), {'engine': 'cls', 'part': p, 'nparts': 2, 'scan': False}, h))
+        jobs.append(('cls.inj', {'engine': 'cls', 'part': 0, 'nparts': 2, 'inject': seed * 100 + 1}, 0))
+        for sh in range(2):
+            jobs.append(('meta%d' % sh, {'engine': 'meta', 'shard': sh, 'nshards': 2}, 0))
     return jobs
 
 
